@@ -176,9 +176,19 @@ def observe_open(path: Path, mode: str, keys) -> dict:
                 outs.append("val:" + hx(v))
             except Exception as e:
                 outs.append(err_token(e, "get"))
+        # the other public ways to enumerate the file must tell the same story as keys() + get()
+        enum = {}
+        try:
+            enum["items"] = [(bytes(k), bytes(v)) for k, v in f.items()]
+        except Exception as e:
+            enum["items"] = f"{type(e).__name__}: {e}"
+        try:
+            enum["values"] = [bytes(v) for v in f.values()]
+        except Exception as e:
+            enum["values"] = f"{type(e).__name__}: {e}"
     finally:
         f.close()
-    return {"outs": outs, "listed": listed, "vals": vals}
+    return {"outs": outs, "listed": listed, "vals": vals, "enum": enum}
 
 
 def observe_append(path: Path, k2: bytes, v2: bytes, keys) -> dict:
@@ -350,7 +360,32 @@ def scan_file(data: bytes):
     return hdr, recs, pos == len(data)
 
 
+def enum_problem(obs):
+    """items() / values() of the handle against its own keys() + get(): None, or what differs"""
+    enum = obs.get("enum")
+    if not enum or obs.get("listed") is None:
+        return None
+    want = [(k, obs["vals"].get(k)) for k in obs["listed"]]
+    if any(v is None for _, v in want):
+        return None                     # a listed key that cannot be read is reported by the other oracles
+    if isinstance(enum["items"], str):
+        return f"items() raised {enum['items'][:80]}"
+    if sorted(enum["items"]) != sorted(want):
+        extra = [hx(k)[:20] for k, v in enum["items"] if (k, v) not in want][:3]
+        return f"items() yields {len(enum['items'])} pairs, keys()+get() give {len(want)} (not among them: {extra})"
+    if isinstance(enum["values"], str):
+        return f"values() raised {enum['values'][:80]}"
+    if sorted(enum["values"]) != sorted(v for _, v in want):
+        return f"values() yields {len(enum['values'])} values that are not those of the listed keys"
+    return None
+
+
 def oracle_crash(ctx, mode, obs, committed: dict, session: dict, session_list, tag):
+    ep = enum_problem(obs)
+    if ep:
+        ctx.violation("C03:enumeration-shows-something-else-than-the-listed-records",
+                      f"after a crash at byte {tag.get('offset')} the reopened file: {ep}", tag)
+        return
     if obs["listed"] is None:
         ctx.violation("C03:reopen-fails-after-crash", f"reopening the crash image raised {obs['outs'][0]}", tag)
         return
